@@ -14,8 +14,21 @@ template<unsigned N> struct Impl: CacheIface{
   bool insert(int v){ return c.insert(Val(v)); }
   int get(){ Val r=c.get(); return r.v; }
 };
+// a payload without a user-provided default constructor (like a raw pointer/offset pair): "nothing" is the value-initialised T()
+struct Raw{ int v; };
+template<unsigned N> struct ImplRaw: CacheIface{
+  squids_tls::detail::cache<Raw,N> c;
+  bool insert(int v){ Raw r; r.v=v; return c.insert(r); }
+  int get(){ Raw r=c.get(); return r.v; }
+};
 }
-CacheIface* make_tls_cache(int capacity){
+CacheIface* make_tls_cache(int capacity,bool raw){
+  if(raw) switch(capacity){
+    case 1: return new ImplRaw<1>();
+    case 2: return new ImplRaw<2>();
+    case 3: return new ImplRaw<3>();
+    default: return new ImplRaw<4>();
+  }
   switch(capacity){
     case 1: return new Impl<1>();
     case 2: return new Impl<2>();
